@@ -54,7 +54,11 @@ func main() {
 				budget = time.Duration(n) * time.Second
 			}
 		}
-		c := &explore.Ctx{ID: id, Tier: tier, Seed: seed, Start: time.Now(), Deadline: time.Now().Add(budget), Workers: runtime.NumCPU(), Rep: explore.NewReport(id)}
+		workers := runtime.NumCPU()
+		if wn, err := strconv.Atoi(os.Getenv("VERIF_WORKERS")); err == nil && wn > 0 {
+			workers = wn
+		}
+		c := &explore.Ctx{ID: id, Tier: tier, Seed: seed, Start: time.Now(), Deadline: time.Now().Add(budget), Workers: workers, Rep: explore.NewReport(id)}
 		fn(c)
 		os.Exit(c.Rep.Finish(c, verifDir()))
 	case "worker-dfs":
@@ -71,6 +75,8 @@ func main() {
 		fmt.Println(string(out))
 	case "worker-bfs":
 		explore.WorkerBFS(os.Args[2], os.Args[3])
+	case "selftest":
+		os.Exit(explore.SelfTest())
 	case "debug-dfs":
 		// scenario arg replayfile: run twice, print first difference in choice points
 		os.Exit(explore.DebugDFS(os.Args[2]))
